@@ -1,14 +1,28 @@
 import RoaringModel.Lemmas.MiscLsb0
 import RoaringModel.Lemmas.MiscWF
+import RoaringModel.Lemmas.MiscLsb0Aligned
+import RoaringModel.Lemmas.Canonical
+import RoaringModel.Lemmas.BitmapMut2
+import RoaringModel.Lemmas.SpecFacts
 /-!
 # C17 — `from_lsb0_bytes` imports exactly the set bits, canonically (property theorems)
 
-Proved here: the unaligned path (`shift_bytes` + carry + recursion with the aligned offset) at the bit
-level, in SPEC terms; the chunk-split arithmetic (no `split_at` / `assert!` / subtraction can fail, the
-pieces add up to the slice); the documented `expect` panic; the popcount threshold (`<= 4096` ⇒ array,
-canonical cached cardinality for bitsets).  The final membership statement of DESIGN §8 C17 is proved
-*relative to* the aligned kernel `AlignedSpec` (per-chunk extraction: word-wise drain, little-endian
-copy, assembling the chunks), which is stated but not yet proved — see `C17_partial`.
+Unconditional: `C17` (no panic, shared `Bitmap.WF`, membership `off + 8i + j`), `C17_elems`,
+`C17_canonical` / `C17_eq_native` (the result is structurally THE well-formed bitmap of the SPEC set, e.g. equal
+to `from_iter` of it), `C17_panics_iff` / `C17_panics_iff_aligned` / `C17_panic_only_outside` (the exact panic
+domain), `C17_full_slice_ok` (the D8 boundary).  The pieces: the unaligned path (`shift_bytes` +
+carry + recursion with the aligned offset) at the bit level; the chunk-split arithmetic; the popcount threshold
+(`<= 4096` ⇒ array, canonical cached cardinality for bitsets); per-chunk extraction (word-wise drain,
+little-endian byte→word copy: Lemmas/MiscLsb0Store.lean) and the chunk assembly (Lemmas/MiscLsb0Aligned.lean),
+which discharge the aligned kernel `AlignedSpec` (`C17_alignedSpec`).
+
+**Defect D8 (found by this proof, fixed in the crate by commit 1f53bea).**  The first attempt to prove the
+aligned kernel on the DESIGN domain `off + 8·len ≤ 2^32` failed at the boundary: the length in bits was computed
+with `u32::checked_mul(8)`, which overflows for a slice of exactly `2^29` bytes *before* the `- 1` that makes the
+end bit inclusive, so `from_lsb0_bytes(0, &[0; 1 << 29])` hit the `expect` although it ends exactly at `2^32`
+(also reachable through an unaligned offset whose carry byte makes the shifted slice `2^29` bytes long).  The
+crate now computes the end bit in `u64`; the model (Lsb0.lean) mirrors the fixed code and the theorems below hold
+on the full DESIGN domain.
 -/
 namespace Roaring.C17
 open Roaring Roaring.Lsb0 Roaring.MiscLemmas
@@ -72,7 +86,9 @@ theorem C17_expect_panic (dbg : Bool) (off : Nat) (bytes : List Nat) (hal : off 
     · rfl
     · split
       · rfl
-      · omega
+      · split
+        · rfl
+        · omega
 
 /-- Non-vacuity: one byte too many at `2^32 - 8`. -/
 example : fromLsb0 true 4294967288 [255, 1] = none := by decide +kernel
@@ -126,18 +142,35 @@ theorem C17_threshold (dbg : Bool) (bytes : List Nat) (bo : Nat) (st : Option St
 example : storeFromLsb0 true [255, 1] 0 = some (some (.array [0, 1, 2, 3, 4, 5, 6, 7, 8])) ∧ bitsSet [255, 1] = 9 := by
   decide +kernel
 
-/-- The aligned kernel: for a multiple-of-8 offset inside the domain the call succeeds with a well-formed
-    bitmap whose elements are exactly the SPEC set (per-chunk word drain / little-endian copy, chunk
-    assembly).  Stated, not yet proved. -/
+/-- The slice the aligned body works on: the bytes themselves for a multiple-of-8 offset, the output of
+    `shift_bytes` (with its carry byte) otherwise. -/
+def alignedSlice (off : Nat) (bytes : List Nat) : List Nat :=
+  if off % 8 = 0 then bytes else shiftBytes bytes (off % 8)
+
+theorem C17_eq_aligned (dbg : Bool) (off : Nat) (bytes : List Nat) :
+    fromLsb0 dbg off bytes = fromLsb0Aligned dbg (off - off % 8) (alignedSlice off bytes) := by
+  unfold fromLsb0 alignedSlice
+  by_cases h : off % 8 = 0
+  · simp [h]
+  · simp [h]
+
+/-- The aligned kernel: for a multiple-of-8 offset and a slice inside the domain the call succeeds with a
+    well-formed bitmap whose elements are exactly the SPEC set (per-chunk word drain / little-endian copy, chunk
+    assembly).  Proved below: `C17_alignedSpec`. -/
 def AlignedSpec (dbg : Bool) : Prop :=
   ∀ (off : Nat) (bytes : List Nat), off % 8 = 0 → (∀ b ∈ bytes, b < 256) → off + 8 * bytes.length ≤ 4294967296 →
     ∃ b, fromLsb0Aligned dbg off bytes = some b ∧ BitmapWF b ∧
       ∀ x, x ∈ Bitmap.elems b ↔ x ∈ Spec.bitsOfBytes off bytes
 
-/-- The statement of DESIGN §8 C17 (all offsets, aligned or not), proved from the aligned kernel:
-    `shift_bytes`, its carry and the recursion are covered here; the hypothesis `hA` (aligned offsets only)
-    is what is still missing for the unconditional theorem. -/
-theorem C17_partial (dbg : Bool) (hA : AlignedSpec dbg) (off : Nat) (bytes : List Nat)
+/-- The aligned kernel holds (Lemmas/MiscLsb0Store.lean: per chunk; Lemmas/MiscLsb0Aligned.lean: assembly). -/
+theorem C17_alignedSpec (dbg : Bool) : AlignedSpec dbg := by
+  intro off bytes hal hb hfit
+  obtain ⟨b, h1, h2, h3⟩ := fromLsb0Aligned_spec dbg off bytes hal hb hfit
+  exact ⟨b, h1, (bitmapWF_iff b).2 h2, h3⟩
+
+/-- The statement of DESIGN §8 C17 (all offsets, aligned or not) from the aligned kernel: `shift_bytes`, its
+    carry and the recursion are covered here. -/
+theorem C17_of_alignedSpec (dbg : Bool) (hA : AlignedSpec dbg) (off : Nat) (bytes : List Nat)
     (hb : ∀ b ∈ bytes, b < 256) (hfit : off + 8 * bytes.length ≤ 4294967296) :
     ∃ b, fromLsb0 dbg off bytes = some b ∧ BitmapWF b ∧
       ∀ x, x ∈ Bitmap.elems b ↔
@@ -151,6 +184,146 @@ theorem C17_partial (dbg : Bool) (hA : AlignedSpec dbg) (off : Nat) (bytes : Lis
     obtain ⟨b, h1, h2, h3⟩ := hA _ _ ha hbs hf
     refine ⟨b, by rw [hr, h1], h2, fun x => ?_⟩
     rw [h3 x, hbits x, mem_bitsOfBytes]
+
+/-- **C17** (unconditional, the DESIGN §8 statement).  For every offset and byte slice with
+    `off + 8·len ≤ 2^32`, `from_lsb0_bytes(offset, bytes)` does not panic (in either build configuration), the
+    result is well-formed (shared `Bitmap.WF`: keys strictly ascending, no empty chunk, array iff at most 4096
+    values, correct cached cardinalities) and contains exactly the integers `off + 8i + j` such that bit `j`
+    (LSB first) of byte `i` is set. -/
+theorem C17 (dbg : Bool) (off : Nat) (bytes : List Nat)
+    (hb : ∀ b ∈ bytes, b < 256) (hfit : off + 8 * bytes.length ≤ 4294967296) :
+    ∃ b, fromLsb0 dbg off bytes = some b ∧ Bitmap.WF b ∧
+      ∀ x, x ∈ Bitmap.elems b ↔
+        ∃ i j byte, bytes[i]? = some byte ∧ j < 8 ∧ byte.testBit j = true ∧ x = off + 8 * i + j := by
+  obtain ⟨b, h1, h2, h3⟩ := C17_of_alignedSpec dbg (C17_alignedSpec dbg) off bytes hb hfit
+  exact ⟨b, h1, (bitmapWF_iff b).1 h2, h3⟩
+
+/-- C17 in SPEC terms: the elements of the result are the list `Spec.bitsOfBytes off bytes`. -/
+theorem C17_elems (dbg : Bool) (off : Nat) (bytes : List Nat)
+    (hb : ∀ b ∈ bytes, b < 256) (hfit : off + 8 * bytes.length ≤ 4294967296) :
+    ∃ b, fromLsb0 dbg off bytes = some b ∧ Bitmap.WF b ∧
+      ∀ x, x ∈ Bitmap.elems b ↔ x ∈ Spec.bitsOfBytes off bytes := by
+  obtain ⟨b, h1, h2, h3⟩ := C17 dbg off bytes hb hfit
+  exact ⟨b, h1, h2, fun x => by rw [h3 x, mem_bitsOfBytes]⟩
+
+/-- The panic domain of the (fixed) code, exactly: the call panics iff the slice handed to the aligned body (the
+    bytes themselves, or the output of `shift_bytes` — one byte longer when the carry is non-zero — read from the
+    offset rounded down to a multiple of 8) is non-empty and extends past `2^32`. -/
+theorem C17_panics_iff (dbg : Bool) (off : Nat) (bytes : List Nat) (hb : ∀ b ∈ bytes, b < 256) :
+    fromLsb0 dbg off bytes = none ↔
+      alignedSlice off bytes ≠ [] ∧
+        (off - off % 8) + 8 * (alignedSlice off bytes).length > 4294967296 := by
+  have hbs : ∀ b ∈ alignedSlice off bytes, b < 256 := by
+    unfold alignedSlice
+    split
+    · exact hb
+    · rename_i h
+      exact (C17_shift_bits off bytes hb h).1
+  have hal : (off - off % 8) % 8 = 0 := by omega
+  rw [C17_eq_aligned]
+  generalize alignedSlice off bytes = sl at hbs
+  constructor
+  · intro hnone
+    by_cases hne : sl = []
+    · subst hne; simp [fromLsb0Aligned] at hnone
+    · refine ⟨hne, ?_⟩
+      by_cases hc : (off - off % 8) + 8 * sl.length > 4294967296
+      · exact hc
+      · obtain ⟨b, h1, _⟩ := fromLsb0Aligned_spec dbg (off - off % 8) sl hal hbs (by omega)
+        rw [h1] at hnone; cases hnone
+  · rintro ⟨hne, hc⟩
+    have he : sl.isEmpty = false := by
+      cases sl with
+      | nil => contradiction
+      | cons _ _ => rfl
+    simp only [fromLsb0Aligned, he, Bool.false_eq_true, if_false, u32Max]
+    split
+    · rfl
+    · split
+      · rfl
+      · split
+        · rfl
+        · split
+          · rfl
+          · omega
+
+/-- The exact panic condition implies the design statement in both directions that matter: inside the domain
+    `off + 8·len ≤ 2^32` there is no panic (that is `C17`), and a panic happens only outside of it. -/
+theorem C17_panic_only_outside (dbg : Bool) (off : Nat) (bytes : List Nat) (hb : ∀ b ∈ bytes, b < 256)
+    (h : fromLsb0 dbg off bytes = none) : off + 8 * bytes.length > 4294967296 := by
+  by_cases hfit : off + 8 * bytes.length ≤ 4294967296
+  · obtain ⟨b, h1, _⟩ := C17 dbg off bytes hb hfit
+    rw [h1] at h; cases h
+  · omega
+
+/-- ... and for a multiple-of-8 offset the panic condition is exactly "non-empty and past `2^32`" (the documented
+    panic); for an unaligned offset a slice just past the domain whose carry is zero is still accepted. -/
+theorem C17_panics_iff_aligned (dbg : Bool) (off : Nat) (bytes : List Nat) (hb : ∀ b ∈ bytes, b < 256)
+    (hal : off % 8 = 0) :
+    fromLsb0 dbg off bytes = none ↔ bytes ≠ [] ∧ off + 8 * bytes.length > 4294967296 := by
+  rw [C17_panics_iff dbg off bytes hb]
+  simp only [alignedSlice, hal, if_true, Nat.sub_zero]
+
+/-- The D8 boundary: the full-domain slice (`2^29` bytes at offset 0, ending exactly at `2^32`) is accepted. -/
+theorem C17_full_slice_ok (dbg : Bool) (bytes : List Nat) (hb : ∀ b ∈ bytes, b < 256)
+    (hl : bytes.length = 536870912) : ∃ b, fromLsb0 dbg 0 bytes = some b ∧ Bitmap.WF b := by
+  obtain ⟨b, h1, h2, _⟩ := C17 dbg 0 bytes hb (by omega)
+  exact ⟨b, h1, h2⟩
+
+/-! ### canonical form: the result is *the* well-formed bitmap of the SPEC set -/
+
+theorem mem_spec_extend (vs : List Nat) : ∀ (s : List Nat) (x : Nat), x ∈ Spec.extend s vs ↔ x ∈ s ∨ x ∈ vs := by
+  unfold Spec.extend
+  induction vs with
+  | nil => intro s x; simp
+  | cons v vs ih =>
+    intro s x
+    simp only [List.foldl_cons]
+    rw [ih, Spec.mem_insert, List.mem_cons]
+    constructor
+    · rintro ((h | h) | h)
+      · exact Or.inr (Or.inl h)
+      · exact Or.inl h
+      · exact Or.inr (Or.inr h)
+    · rintro (h | h | h)
+      · exact Or.inl (Or.inr h)
+      · exact Or.inl (Or.inl h)
+      · exact Or.inr h
+
+/-- The result is structurally equal to ANY well-formed bitmap with the same elements (however it was built). -/
+theorem C17_canonical (dbg : Bool) (off : Nat) (bytes : List Nat)
+    (hb : ∀ b ∈ bytes, b < 256) (hfit : off + 8 * bytes.length ≤ 4294967296)
+    (b' : Bitmap) (hwf : Bitmap.WF b') (hel : ∀ x, x ∈ Bitmap.elems b' ↔ x ∈ Spec.bitsOfBytes off bytes) :
+    fromLsb0 dbg off bytes = some b' := by
+  obtain ⟨b, h1, h2, h3⟩ := C17_elems dbg off bytes hb hfit
+  rw [h1]
+  congr 1
+  apply Bitmap.canonical b b' h2 hwf
+  apply Arr.sorted_ext _ _ (Bitmap.sorted_elems b h2.dir) (Bitmap.sorted_elems b' hwf.dir)
+  intro x
+  rw [h3 x, hel x]
+
+/-- In particular it is structurally equal (same containers, same store kinds, same cached cardinalities) to the
+    bitmap built natively by inserting the SPEC elements one at a time. -/
+theorem C17_eq_native (dbg : Bool) (off : Nat) (bytes : List Nat)
+    (hb : ∀ b ∈ bytes, b < 256) (hfit : off + 8 * bytes.length ≤ 4294967296) :
+    fromLsb0 dbg off bytes = some (Bitmap.fromIter (Spec.bitsOfBytes off bytes)) := by
+  have hlt : ∀ v ∈ Spec.bitsOfBytes off bytes, v < 4294967296 := by
+    intro v hv
+    rw [mem_bitsOfBytes] at hv
+    obtain ⟨i, j, byte, hi, hj, _, rfl⟩ := hv
+    have : i < bytes.length := by
+      by_cases h : i < bytes.length
+      · exact h
+      · have : bytes[i]? = none := by simp; omega
+        rw [this] at hi; cases hi
+    omega
+  have hnew : Bitmap.WF Bitmap.new := ⟨List.Pairwise.nil, by simp [Bitmap.new]⟩
+  obtain ⟨e1, e2⟩ := Bitmap.extend_spec Bitmap.new hnew (Spec.bitsOfBytes off bytes) hlt
+  apply C17_canonical dbg off bytes hb hfit _ e1
+  intro x
+  rw [e2, mem_spec_extend]
+  simp [Bitmap.new, Bitmap.elems]
 
 /-- Non-vacuity of the kernel's conclusion at a concrete aligned point (two chunks: the slice straddles the
     edge at 65536), in both configurations. -/
